@@ -1,7 +1,8 @@
 """C13  Steps run in exactly the declared environment.
 
 (A) TLC enumerates every configuration of specs/StepEnv.tla (one state = -E x sandbox mode x sandbox
-    image x dependency order x checkoutDep x packageDepends x tool step), checks the internal
+    image x dependency order x checkoutDep x packageDepends x tool step x tools of a second provider
+    package with identical / distinct relative path and libs entries), checks the internal
     consistency invariants of the documented rules (carry-forward, weak = strong, fingerprint subset,
     no host leak, -E shows all, whitelist monotone, argument shape, mount soundness, documented mode
     table = definitions = transcription of the code structure) and prints for each configuration the
@@ -26,7 +27,8 @@ host afterwards, nothing of Bob's bookkeeping).  Signatures:
                              host-whitelist, host-by-dash-e, host-default-whitelist, builtin:<NAME>)
     value:step|fingerprint:<character class>   a declared variable does not carry the computed value byte for byte
     value:executed-command-substitution        a value was executed by a shell
-    args:<step>:count|order|wrong-workspace, tool:<step>:not-on-PATH:<t> | libs-on-LD_LIBRARY_PATH:<missing|order> | undeclared-*
+    args:<step>:count|order|wrong-workspace, tool:<step>:not-on-PATH:<t> | lib-dir-not-on-LD_LIBRARY_PATH:<same-relative-dir-as-tool-of-other-package|...> |
+                             libs-on-LD_LIBRARY_PATH:order | *-entry-not-in-workspace-of-provider | undeclared-*
     builtin:<step>:BOB_DEP_PATHS | BOB_TOOL_PATHS | PATH-base | BOB_CWD-not-own-workspace
     sandbox:<mode>:<step>:sees-foreign-workspace:<class> | declared-input-not-visible:<pkg> |
                              foreign-write-reached-host:<class> | tmp-not-writable, sandbox:<mode>:tmp-not-private
@@ -59,7 +61,7 @@ DECL_KEY = {"checkout": "checkoutVars", "build": "buildVars", "package": "packag
 SHELL_NOISE = {"PWD", "OLDPWD", "SHLVL", "_"}          # set by bash itself / by `env`
 BUILTINS_STEP = {"BOB_CWD", "PATH", "LD_LIBRARY_PATH"}    # configuration.rst 616-628
 BUILTINS_FP = {"BOB_CWD", "PATH"}
-HELPERS = ["penv", "pnoenv", "tl", "sbx", "da", "db", "dc"]
+HELPERS = ["penv", "pnoenv", "tl", "tm", "sbx", "da", "db", "dc"]
 SANDBOX_PATHS = ["/usr/local/bin", "/usr/bin", "/bin", "/usr/sbin", "/sbin"]
 # default whitelist names used for host classes with dflt = TRUE (PATH stays untouched)
 DFLT_NAMES = {(True, False, False, False): "HOME", (True, False, True, False): "TERM",
@@ -266,7 +268,8 @@ class Catalogue:
         self.kinds = {kid: rec for kid, rec in cat["kinds"]}
         self.srcname = {code: name for code, name in cat["srccodes"]}
         self.srcname["-"] = "-"
-        self.libs = cat["libs"]
+        self.tools = {t: {"pkg": pkg, "path": path, "libs": libs} for t, pkg, path, libs in cat["tools"]}
+        self.profiles = {tuple(pr["key"]): pr for pr in cat["profiles"]}
         self.hostkinds = [tuple(h) for h in cat["hostkinds"]]
         self.name = {kid: "V" + kid.replace("-", "_") for kid in self.kinds}
         assert len(set(self.name.values())) == len(self.kinds)
@@ -346,7 +349,7 @@ class Project:
     # -- files ------------------------------------------------------------------------------
     def dump_class(self):
         victims = [os.path.join(self.root, "dev", lbl, p, "1", "workspace")
-                   for p in ("da", "tl", "sbx", "penv", "p0") for lbl in ("src", "build", "dist")]
+                   for p in ("da", "tl", "tm", "sbx", "penv", "p0") for lbl in ("src", "build", "dist")]
         victims = [self.root, os.path.join(self.root, "recipes")] + victims
         fn = r'''
 vf_dump()
@@ -439,12 +442,21 @@ vf_dump()
             helper(d, {})
         helper("penv", {"provideVars": penv})
         helper("pnoenv", {"provideVars": pnoenv})
-        helper("tl", {"provideTools": {"t1": {"path": "bin", "libs": ["lib/" + l for l in cat.libs["t1"]],
-                                              "environment": toolenv},
-                                       "t2": {"path": "sbin"}}},
-               pkgscript="mkdir -p bin sbin %s\nprintf t1 > bin/vf-tool\nprintf t2 > sbin/vf-tool\n%s"
-               % (" ".join("lib/" + l for l in cat.libs["t1"]),
-                  "".join("printf 't1:%s' > lib/%s/vf-lib\n" % (l, l) for l in cat.libs["t1"])))
+        # tool providers: every tool has <path>/vf-tool = its name and <lib>/vf-lib = "<tool>:<lib>" for each lib
+        # dir; t1 (package tl) and t3 (package tm) have textually identical relative path / libs entries
+        for prov in sorted({d["pkg"] for d in cat.tools.values()}):
+            mine = {t: d for t, d in cat.tools.items() if d["pkg"] == prov}
+            ptools, script = {}, []
+            for t, d in sorted(mine.items()):
+                ptools[t] = {"path": d["path"]}
+                if d["libs"]:
+                    ptools[t]["libs"] = list(d["libs"])
+                if t == "t1":
+                    ptools[t]["environment"] = toolenv
+                script.append("mkdir -p %s\nprintf %s > %s/vf-tool\n" % (d["path"], t, d["path"]))
+                for l in d["libs"]:
+                    script.append("mkdir -p %s\nprintf '%s:%s' > %s/vf-lib\n" % (l, t, l, l))
+            helper(prov, {"provideTools": ptools}, pkgscript="".join(script))
         mounts = [[d, d, ["nofail"]] for d in ("/bin", "/etc", "/lib", "/lib32", "/lib64", "/sbin", "/usr")]       # not /var: the projects may live in /var/tmp
         mounts.append([self.ctl, self.ctl, ["rw"]])
         helper("sbx", {"provideVars": sbxprov,
@@ -456,7 +468,8 @@ vf_dump()
             iso = "1" if st["isolated"] else "0"
             deps = [{"name": "penv", "use": ["environment"]},
                     {"name": "sbx", "use": ["environment", "sandbox"] if c["img"] else ["environment"]},
-                    {"name": "tl", "use": ["tools"]}]
+                    {"name": "tl", "use": ["tools"]},
+                    {"name": "tm", "use": ["tools"]}]
             for j, d in enumerate(c["deps"]):
                 e = {"name": d, "use": ["result"]}
                 if c["codep"] == j + 1:
@@ -487,8 +500,13 @@ vf_dump()
             r["fingerprintIf"] = True
             r["fingerprintVars"] = fpv
             r["fingerprintScript"] = 'env -0 > "$VF_CTL/fp.%s.$$.$RANDOM"\necho fp-%s\n' % (p, p)
+            tooldecl = {}
             if c["toolstep"] != "none":
-                r[c["toolstep"] + "Tools"] = ["t1"]
+                tooldecl.setdefault(c["toolstep"] + "Tools", []).append("t1")
+            which, _, xstep = c["xtool"].partition("@")
+            for t in {"none": [], "same": ["t3"], "distinct": ["t4"], "both": ["t4", "t3"]}[which]:
+                tooldecl.setdefault(xstep + "Tools", []).append(t)
+            r.update(tooldecl)
             r["buildToolsWeak"] = ["t2"]
             for step in ("checkout", "build", "package"):
                 r[step + "Script"] = 'vf_dump %s %s %s "$@"\n' % (p, step, iso)
@@ -727,15 +745,38 @@ def check_project(P, out, rc, F):
                     F.v("tool:%s:undeclared-on-PATH:%s" % (step, "+".join(extra)), where=where, onpath=onpath)
             if arrays["T"] != {m: p_ for p_, m in onpath} and sorted(m for _, m in onpath) == wt:
                 F.v("builtin:%s:BOB_TOOL_PATHS" % step, where=where, got=arrays["T"], onpath=onpath)
+            # every consumed tool: <workspace of its package>/<path> on PATH ...
+            def in_ws(pth, prov, rel):
+                if not pth.startswith("/") or not pth.endswith("/" + rel):
+                    return False
+                host = ws_of_id.get("%s|package" % prov)
+                return pth.startswith("/bob/") or host is None or os.path.realpath(pth) == os.path.realpath(os.path.join(host, rel))
+            for pth, m in onpath:
+                if m in wt and not in_ws(pth, cat.tools[m]["pkg"], cat.tools[m]["path"]):
+                    F.v("tool:%s:PATH-entry-not-in-workspace-of-provider" % step, where=where, onpath=onpath)
+            # ... and EVERY lib dir of EVERY consumed tool on LD_LIBRARY_PATH, per tool in declared order
             for t in wt:
-                wl_ = ["%s:%s" % (t, l) for l in cat.libs[t]]
+                wl_ = ["%s:%s" % (t, l) for l in cat.tools[t]["libs"]]
                 gl = [m for _, m in libs if m.startswith(t + ":")]
-                if gl != wl_:
-                    F.v("tool:%s:libs-on-LD_LIBRARY_PATH:%s" % (step, "missing" if len(gl) < len(wl_) else "order"),
+                miss = [m for m in wl_ if m not in gl]
+                if miss:
+                    shared = any(o != t and cat.tools[o]["pkg"] != cat.tools[t]["pkg"] and
+                                 set(cat.tools[o]["libs"]) & {m.split(":", 1)[1] for m in miss} for o in wt)
+                    F.v("tool:%s:lib-dir-not-on-LD_LIBRARY_PATH:%s" % (
+                        step, "same-relative-dir-as-tool-of-other-package" if shared else "no-other-tool-names-this-dir"),
+                        where=where, tool=t, missing=miss, got=libs, want=st[step]["libpath"])
+                elif gl != wl_:
+                    F.v("tool:%s:libs-on-LD_LIBRARY_PATH:%s" % (step, "order" if sorted(gl) == sorted(wl_) else "duplicated"),
                         where=where, got=libs, want=wl_)
             for pth, m in libs:
-                if m.split(":")[0] not in wt:
+                t = m.split(":")[0]
+                if t not in wt:
                     F.v("tool:%s:undeclared-on-LD_LIBRARY_PATH" % step, where=where, got=libs)
+                elif not in_ws(pth, cat.tools[t]["pkg"], m.split(":", 1)[1]):
+                    F.v("tool:%s:LD_LIBRARY_PATH-entry-not-in-workspace-of-provider" % step, where=where, got=libs)
+            if [m for _, m in libs] != ["%s:%s" % (e[0], e[2]) for e in st[step]["libpath"]] and \
+                    sorted(m for _, m in libs) == sorted("%s:%s" % (e[0], e[2]) for e in st[step]["libpath"]):
+                F.drift.append("LD_LIBRARY_PATH order between tools differs from sorted-by-tool-name in %s: %s" % (where, libs))
             # PATH base
             pathv = obs.get(b"PATH", b"").decode("utf-8", "replace")
             toolpaths = [p_ for p_, _ in onpath]
@@ -964,7 +1005,8 @@ def probe_sandbox(cat_raw, states, seed):
                 "reason": "bin/bob-namespace-sandbox of /repo is missing or stale; Bob would compile into /repo"}
     for mode in ("slim", "image"):
         st = next(s for s in states if s["cfg"]["sb"] == mode and s["cfg"]["img"] and not s["cfg"]["E"]
-                  and len(s["cfg"]["deps"]) == 2 and s["cfg"]["toolstep"] == "build" and s["cfg"]["codep"] == 1)
+                  and len(s["cfg"]["deps"]) == 2 and s["cfg"]["toolstep"] == "build" and s["cfg"]["codep"] == 1
+                  and s["cfg"]["xtool"] == "same@build")
         try:
             r = run_project((cat_raw, seed, 9000 + len(res), False, mode, [st], False))
             res[mode] = True
@@ -990,7 +1032,8 @@ def select_states(states, per_group, rng):
             continue
         def feats(st):
             c = st["cfg"]
-            f = {"img": c["img"], "deps": tuple(c["deps"]), "codep": c["codep"], "pkgdep": c["pkgdep"], "tool": c["toolstep"]}
+            f = {"img": c["img"], "deps": tuple(c["deps"]), "codep": c["codep"], "pkgdep": c["pkgdep"], "tool": c["toolstep"],
+                 "xtool": c["xtool"]}
             items = sorted(f.items())
             return {(a, b_) for i, a in enumerate(items) for b_ in items[i + 1:]} | {(a,) for a in items}
         pool = lst[:]
@@ -1007,6 +1050,19 @@ def select_states(states, per_group, rng):
     return out
 
 
+def attach_profiles(cat_raw, states):
+    """the visible variable classes are printed once per VisKey (spec invariant VisibleByProfile): attach them"""
+    profiles = {tuple(pr["key"]): pr for pr in cat_raw["profiles"]}
+    for st in states:
+        pr = profiles[tuple(st["viskey"])]
+        st["hostvis"] = pr["hostvis"]
+        for step in ("checkout", "build", "package"):
+            st[step]["recipe"], st[step]["host"] = pr[step]["recipe"], pr[step]["host"]
+        for step in ("fp_build", "fp_package"):
+            st[step] = pr[step]
+    return profiles
+
+
 DROPPED = set()
 
 
@@ -1015,7 +1071,7 @@ def main():
     rep = evidence.Report(PROP, a.tier, a.seed)
     quick = a.tier == "quick"
     rep.rule = ("TLC states = all configurations (-E x sandbox mode x image x dependency order x checkoutDep x packageDepends "
-                "x tool step); traces = configurations replayed as real packages; evaluations = script executions "
+                "x tool step x second-provider tool layout); traces = configurations replayed as real packages; evaluations = script executions "
                 "(checkout/build/package/fingerprint) whose dumped environment was compared; non-trivial = distinct "
                 "configurations replayed x value character classes that occurred in compared variables")
     rep.assumptions = ["`env -0`, printf and touch of the host (and of the mounted host /usr inside the image) report faithfully",
@@ -1032,7 +1088,7 @@ def main():
         return rep.finish()
     tlc.require_coverage(res, ["ChooseNone", "ChooseSlim", "ChooseDev", "ChooseStrict", "ChooseImage"], "StepEnv.cfg")
     for inv in ("ReachCheckoutDepSecond", "ReachStableImage", "ReachSandboxEnvVisible", "ReachHostShadowed",
-                "ReachWeakFingerprint", "ReachPrecedence"):
+                "ReachWeakFingerprint", "ReachSameRelLibs", "ReachPrecedence"):
         r2 = tlc.run("StepEnv", "StepEnv_reach_%s.cfg" % inv, timeout=600)
         if r2.violated != inv:
             raise tlc.TlcError("vacuity: %s not reachable" % inv)
@@ -1045,7 +1101,9 @@ def main():
             states.append(p)
     if cat_raw is None or len(states) != res.distinct - 1:
         raise tlc.TlcError("expected one printed configuration per state: %d printed, %d states" % (len(states), res.distinct))
+    profiles = attach_profiles(cat_raw, states)
     rep.extra["configurations_enumerated"] = len(states)
+    rep.extra["visibility_profiles"] = len(profiles)
     rep.extra["variable_classes"] = len(cat_raw["kinds"])
     rep.extra["host_classes"] = len(cat_raw["hostkinds"])
 
@@ -1054,12 +1112,15 @@ def main():
     rep.extra["atoms_dropped_by_rendering_check"] = sorted("%s:%r" % x for x in DROPPED)
     rng = random.Random(a.seed)
     cap = os.environ.get("VF_C13_PER_GROUP")
-    per_group = int(cap) if cap else (24 if quick else None)
+    # thorough: 784 of the 3920 configurations of every (E, mode) group (pairwise cover + seeded choice)
+    per_group = int(cap) if cap else (24 if quick else 784)
     chunk = int(os.environ.get("VF_C13_CHUNK", "8" if quick else "28"))
     sel = select_states(states, per_group, rng)
     probe = probe_sandbox(cat_raw, states, a.seed)
     rep.extra["sandbox_probe"] = {k: v for k, v in probe.items() if k != "viol"}
+    reported = set()
     for sig, detail in sorted(probe["viol"].items()):
+        reported.add(sig)
         rep.violation(sig, detail)
     rep.extra["projects_outside_tmp"] = scratch_base() is not None
     if scratch_base() is None:
@@ -1096,7 +1157,9 @@ def main():
             for d in r["drift"]:
                 rep.model_drift(d)
             for sig, detail in sorted(r["viol"].items()):
-                rep.violation(sig, detail)
+                if sig not in reported:          # one report per signature and run
+                    reported.add(sig)
+                    rep.violation(sig, detail)
             if r["sample"]:
                 rep.sample(r["sample"])
         rep.extra["name_probes"] = {}
